@@ -51,7 +51,7 @@ def docFind (eq : Char → Char → Bool) (text : Text) (cur : Nat) (sub : Text)
     reversed text before the cursor. -/
 def docFindBack (eq : Char → Char → Bool) (text : Text) (cur : Nat) (sub : Text) : Option Int :=
   let before := (text.take cur).reverse       -- text_before_cursor[::-1]
-  (findFirst eq sub.reverse before).map fun s => -(s : Int) - (sub.length : Int)
+  (findFirst eq sub.reverse before).map fun (s : Nat) => -(s : Int) - (sub.length : Int)
 
 /-! ### Buffer._search -/
 
@@ -177,20 +177,24 @@ inductive Key where
   | prev (count : Nat)       -- vi `N`
 deriving Repr, DecidableEq
 
-/-- `KeyProcessor._fix_vi_cursor_position` : in Vi navigation mode the cursor may not rest
-    behind the last character of a non-empty line. -/
-def viFix (b : Buf) : Buf :=
+/-- `document.is_cursor_at_the_end_of_line and len(document.current_line) > 0` -/
+def viAtEolNonEmpty (b : Buf) : Bool :=
   let t := b.text
   let atEol := match t[b.cur]? with
     | none => true
     | some c => c == '\n'
-  -- current line non-empty  ⇔  at end of line and the character before the cursor is not '\n'
+  -- at the end of a line, the line is non-empty  ⇔  the character before the cursor is not '\n'
   let lineNonEmpty := match b.cur with
     | 0 => false
     | k + 1 => match t[k]? with
       | some c => c != '\n'
       | none => false
-  if atEol && lineNonEmpty then { b with cur := b.cur - 1 } else b
+  atEol && lineNonEmpty
+
+/-- `KeyProcessor._fix_vi_cursor_position` : in Vi navigation mode the cursor may not rest
+    behind the last character of a non-empty line. -/
+def viFix (b : Buf) : Buf :=
+  if viAtEolNonEmpty b then { b with cur := b.cur - 1 } else b
 
 /-- `search.stop_search` : focus back, search field reset -/
 def stopSearch (s : Sess) : Sess := { s with searching := false, field := [] }
